@@ -158,8 +158,9 @@ pub fn run<T: Target>(sc: &Scenario, stats: &mut Stats) {
         .iter()
         .map(|f| {
             end += f.len() + 1;
-            let o = T::isolated(f);
-            json!({"cls": o.cls, "canon": o.canon, "end": end})
+            let mut v = crate::targets::expected_fields(&T::isolated(f), f);
+            v["end"] = json!(end);
+            v
         })
         .collect();
     let (blen0, _, _) = hook_state(&conn);
